@@ -785,6 +785,22 @@ func (s *Service) ListenerExist(Name string) bool {
 	return false
 }
 
+// AgentList and ListenerList give what is registered at this moment. Service connections register
+// and leave at any moment, each served by a goroutine of its own: everybody else reads a copy
+func (s *Service) AgentList() []*AgentService {
+	s.mutex.Lock()
+	defer s.mutex.Unlock()
+
+	return append([]*AgentService(nil), s.Agents...)
+}
+
+func (s *Service) ListenerList() []*ListenerService {
+	s.mutex.Lock()
+	defer s.mutex.Unlock()
+
+	return append([]*ListenerService(nil), s.Listeners...)
+}
+
 func (s *Service) ListenerAdd(listener *ListenerService) {
 	logger.Info(fmt.Sprintf("%v registered a new listener %v %v", "["+colors.BoldWhite("SERVICE")+"]", "[Name: "+colors.Blue(listener.Name)+"]", "[Agent: "+colors.Blue(listener.Agent)+"]"))
 	if listener != nil {
